@@ -708,6 +708,85 @@ theorem smooth_is_mean (t : Sigs α) (f : α → α) (support : α) (S : Nat) (w
   rw [(dim_dispatch Globals.initial t _).1]
   exact congrArg (fun r => some (r, Globals.initial)) h1
 
+/-! ## The same track filtered again with the same kernel object -/
+
+/-- the domain does not depend on the scale of a weight list: after `kernel[i] /= sum` it is still in it -/
+theorem inDomain_normalise (v : List (Option α)) (k : List α) (h : InDomain v k false) (hs : k.sum ≠ 0) :
+    InDomain v (normalise k) false := by
+  have hsum : 0 < k.sum := lt_of_le_of_ne (sum_nonneg' k h.nonneg) (Ne.symm hs)
+  refine ⟨by rw [normalise_length]; exact h.odd, ?_, ?_, by intro hb; rw [normalise_length]; exact h.long hb⟩
+  · intro w hw
+    rw [normalise_eq, List.mem_map] at hw
+    obtain ⟨x, hx, rfl⟩ := hw
+    exact div_nonneg (h.nonneg x hx) (le_of_lt hsum)
+  · intro i hi
+    rw [normalise_length, wtot_window_normalise]
+    exact div_pos (h.norm_pos i hi) hsum
+
+/-- **`filter_seq` called twice on the same track with the same kernel object and the same names** (the second
+call finds the scratch feature `temp` in the track and a weight list that the first call has normalised in place,
+once per dimension): when every listed signal and its mean signal are in the domain, both calls succeed, the first
+gives the mean signals and the second the mean signals of the mean signals under the *same* window; every other
+signal except `temp` is untouched. -/
+theorem filterSeq_twice (g : Globals) (t : Sigs α) (kern : KArg α) (w : List α) (b : Bool) (dims : List String)
+    (hp : Prepared kern w b) (hone : ∀ a, kern ≠ .list [a]) (hne : dims ≠ [])
+    (hnd : dims.Nodup) (htemp : "temp" ∉ dims)
+    (hres : ∀ d ∈ dims, d ≠ "t" ∧ d ≠ "timestamp" ∧ d ≠ "idx") (hsize : trackSize t ≠ 0)
+    (hall : ∀ d ∈ dims, ∃ v, getSig t d = some v ∧ InDomain v w b ∧ InDomain (meanSignal v w b) w b) :
+    ∃ t1 t2, filterSeqRepeat g t (.k kern) (.list dims) 2 = [some (.ok t1, g), some (.ok t2, g)] ∧
+      (∀ d ∈ dims, ∃ v, getSig t d = some v ∧ getSig t1 d = some (meanSignal v w b) ∧
+        getSig t2 d = some (meanSignal (meanSignal v w b) w b)) ∧
+      (∀ nm, nm ∉ dims → nm ≠ "temp" → getSig t2 nm = getSig t nm) := by
+  obtain ⟨t1, h1, h2, h3⟩ := filterSeq_is_mean t kern w b dims hp hone hnd htemp hres hsize
+    (fun d hd => by obtain ⟨v, hv, hin, _⟩ := hall d hd; exact ⟨v, hv, hin⟩)
+  have hsize1 : trackSize t1 ≠ 0 := by
+    have e : trackSize t1 = trackSize t := by
+      unfold trackSize
+      by_cases hx : "x" ∈ dims
+      · obtain ⟨v, hv, hv'⟩ := h2 "x" hx
+        rw [hv, hv']; simp [meanSignal]
+      · rw [h3 "x" hx (by decide)]
+    rw [e]; exact hsize
+  have hall1 : ∀ (w' : List α), (∀ v, InDomain v w b → InDomain v w' b) →
+      ∀ d ∈ dims, ∃ v', getSig t1 d = some v' ∧ InDomain v' w' b := by
+    intro w' hw' d hd
+    obtain ⟨v, hv, _, hin2⟩ := hall d hd
+    obtain ⟨v0, hv0, hv0'⟩ := h2 d hd
+    rw [hv] at hv0; cases hv0
+    exact ⟨_, hv0', hw' _ hin2⟩
+  -- the kernel object after the first call, its window, and the second call
+  have key : ∃ (kern2 : KArg α) (w2 : List α), seqKernelAfter (.k kern) dims = .k kern2 ∧ Prepared kern2 w2 b ∧
+      (∀ a, kern2 ≠ .list [a]) ∧ (∀ v, InDomain v w b → InDomain v w2 b) ∧ (∀ v, meanSignal v w2 b = meanSignal v w b) := by
+    cases kern with
+    | obj dirac fb f support S => exact ⟨_, w, rfl, hp, fun a h => (by cases h), fun _ h => h, fun _ => rfl⟩
+    | list k =>
+      obtain ⟨rfl, rfl, hs⟩ := hp
+      have hlen : w.length ≠ 1 := by
+        intro hl
+        match w, hl with
+        | [a], _ => exact hone a rfl
+      have hdl : 0 < dims.length := List.length_pos_of_ne_nil hne
+      refine ⟨.list (normalise w), normalise w, ?_, ⟨rfl, rfl, by rw [normalise_sum w hs]; exact one_ne_zero⟩, ?_,
+        fun v h => inDomain_normalise v w h hs, fun v => meanSignal_normalise v w false hs⟩
+      · unfold seqKernelAfter
+        simp only [beq_iff_eq, hlen, if_false]
+        rw [normaliseN_of_pos w hs _ hdl]
+      · intro a h
+        have : (normalise w).length = 1 := by rw [KArg.list.inj h]; rfl
+        rw [normalise_length] at this
+        exact hlen this
+  obtain ⟨kern2, w2, hk2, hp2, hone2, hdom2, hmean2⟩ := key
+  obtain ⟨t2, g1, g2, g3⟩ := filterSeq_is_mean t1 kern2 w2 b dims hp2 hone2 hnd htemp hres hsize1 (hall1 w2 hdom2)
+  refine ⟨t1, t2, ?_, ?_, ?_⟩
+  · simp only [filterSeqRepeat, dimNames, h1, hk2, g1]
+  · intro d hd
+    obtain ⟨v, hv, hv'⟩ := h2 d hd
+    obtain ⟨v1, hv1, hv1'⟩ := g2 d hd
+    rw [hv'] at hv1; cases hv1
+    exact ⟨v, hv, hv', by rw [hv1', hmean2]⟩
+  · intro nm hnm hnt
+    rw [g3 nm hnm hnt, h3 nm hnm hnt]
+
 /-! ## Tracks shorter than the window (`track.size() < N = 2D+1`)
 
 The statement defines every output whatever the length of the track: a window that overhangs both ends at
